@@ -206,3 +206,28 @@ Proof.
   - apply cr_step with unprotected_start 1; [apply cr_refl|reflexivity].
   - reflexivity.
 Qed.
+
+(* two unprotected closes of one channel: the second one panics ("close of closed channel") *)
+Definition double_close_start : cstate :=
+  {| closed := false; flag := false; pending := 0;
+     cprogs := fun t => match t with O => [CClose] | S O => [CClose] | _ => [] end |}.
+
+Lemma double_close_panics : cpanics double_close_start.
+Proof.
+  set (s1 := {| closed := true; flag := false; pending := 0; cprogs := cset (cprogs double_close_start) 0 [] |}).
+  exists s1, 1. split.
+  - apply cr_step with double_close_start 0; [apply cr_refl|reflexivity].
+  - reflexivity.
+Qed.
+
+(* any number of closers that go through the test-and-set section (sync.Once.Do, or a flag under a
+   mutex) never close twice: instance of protocol (a) without senders *)
+Corollary once_close_safe : forall s0,
+  closed s0 = false -> flag s0 = false ->
+  (forall t, only (fun a => match a with CFlagClose => true | _ => false end) (cprogs s0 t)) ->
+  ~ cpanics s0.
+Proof.
+  intros s0 Hc Hf Hon. apply proto_a_safe. split; [exact Hc|]. split; [exact Hf|].
+  intro t. specialize (Hon t). unfold only in *. induction Hon as [|a r Ha _ IH]; constructor; [|exact IH].
+  destruct a; try discriminate Ha; reflexivity.
+Qed.
